@@ -124,7 +124,7 @@ var aTampers = []string{"ctl-desc", "ctl-other", "dat-other", "dat-body-resummed
 	"zero-index", "missing", "sig-flip", "consistent-q1", "consistent-blanksum",
 	// round 2: a republished package (new content AND new index checksum under the same URL), near-miss index checksums,
 	// entries of unsupported tar types, same-name entries in one data section
-	"republished", "caseflip-index", "bitflip-index",
+	"republished", "caseflip-index", "bitflip-index", "none-index", "q2-index",
 	"consistent-cont", "consistent-dev", "consistent-fifo", "consistent-hidden-cont",
 	"consistent-dup-regreg", "consistent-dup-symcopy", "consistent-dup-symown", "consistent-dup-hard", "consistent-dup-cont",
 	"consistent-dup-hidden", "consistent-dup-alias", "consistent-dup-dir", "consistent-dup-dirdir"}
@@ -217,7 +217,7 @@ func applyTamper(r *Rng, c *aCase, v []aServe, i int, kind string) {
 		s.Ctl, s.Dat = aRef{i, k}, aRef{i, k}
 	case "zero-index":
 		s.Index = "zero"
-	case "caseflip-index", "bitflip-index":
+	case "caseflip-index", "bitflip-index", "none-index", "q2-index":
 		s.Index = strings.TrimSuffix(kind, "-index")
 	case "republished":
 		// the repository publishes new content under the same name-version and records ITS checksum: authentic by
